@@ -87,14 +87,21 @@ def place_initial(grid, agents, wags):
             grid.place(a, tuple(pos))
 
 
-def snapshot(grid, agents):
+def snapshot(grid, agents, quantise=False):
+    """quantise: health values that are not multiples of 2^-20 are mapped monotonically to the wire
+    (0 -> 0, (0, 2^-20] -> 1, ..., > 1 -> HD + 1, < 0 -> -1): the invariant's clauses on health
+    (0 <= h <= 1, h = 0 iff inactive) are preserved; used by the float-regime monitor of C03 only."""
+    import math
     ags = []
     for i in range(len(agents)):
         a = agents[aid(i)]
         pos = getattr(a, "_position", None)
         h = getattr(a, "_health", 0)
-        ht = int(round(h * HD))
-        assert abs(ht - h * HD) < 1e-9, "health is not a multiple of 2^-20"
+        if quantise:
+            ht = -1 if h < 0 else (HD + 1 if h > 1 else int(math.ceil(h * HD)))
+        else:
+            ht = int(round(h * HD))
+            assert abs(ht - h * HD) < 1e-9, "health is not a multiple of 2^-20"
         ags.append([a.encoding,
                     [int(pos[0]), int(pos[1])] if pos is not None else [],
                     ht, 1 if a.active else 0,
